@@ -9,7 +9,7 @@ use serde::{Deserialize, Serialize};
 pub const LOCALS: [&str; 9] = ["a", "b", "c", "d", "e", "f", "A", "id", "\u{e9}l"];
 pub const URIS: [&str; 4] = ["urn:x", "urn:y", "urn:z", "urn:w?a=1&b=\"2\""];
 pub const PREFIXES: [&str; 3] = ["p", "q", "r"];
-pub const TEXTS: [&str; 17] = ["a]]]>b", "t", "x y", " ", "hello", "<&>", "é", "a]]>b", "  \n ", "1", "\"q'", "zz", "\u{1F600}", "a\rb", "]]", ">", "a long run of character data, long enough to cross the small-string and buffer sizes that short samples never reach; 0123456789 0123456789 0123456789 0123456789 0123456789 0123456789 <&> \u{1F600} end"];
+pub const TEXTS: [&str; 18] = ["\u{c3}\u{a9} 1\u{c2}\u{bd}", "a]]]>b", "t", "x y", " ", "hello", "<&>", "é", "a]]>b", "  \n ", "1", "\"q'", "zz", "\u{1F600}", "a\rb", "]]", ">", "a long run of character data, long enough to cross the small-string and buffer sizes that short samples never reach; 0123456789 0123456789 0123456789 0123456789 0123456789 0123456789 <&> \u{1F600} end"];
 pub const ATTR_VALUES: [&str; 13] = ["v", "", "x y", "<&\">", "é", "w'w", "1", "long value here", " a1 ", "first  second", "a\tb", "l1\nl2", "cr\rx"];
 pub const COMMENTS: [&str; 6] = ["c", " note ", "", "a-b", "<x>", "\u{e9} \u{1F600}"];
 pub const XML_NS: &str = "http://www.w3.org/XML/1998/namespace";
@@ -56,10 +56,13 @@ pub struct GenCfg {
     pub xml_prefix_decl_pct: u32,
     /// share of elements with 9-12 further declarations (prefixes d0..d11 in a shuffled order)
     pub many_decls_pct: u32,
+    /// two namespaces, two prefixes, two local names: the same names recur, prefixes are re-bound
+    /// and aliased, the default namespace is declared and undeclared all the time
+    pub small_pools: bool,
 }
 impl GenCfg {
     pub fn small() -> Self {
-        GenCfg { max_depth: 3, max_kids: 3, ns_pct: 35, attr_max: 2, misc_pct: 20, text_pct: 35, xml_id_pct: 10, xml_prefix_decl_pct: 0, many_decls_pct: 0 }
+        GenCfg { max_depth: 3, max_kids: 3, ns_pct: 35, attr_max: 2, misc_pct: 20, text_pct: 35, xml_id_pct: 10, xml_prefix_decl_pct: 0, many_decls_pct: 0, small_pools: false }
     }
     pub fn swarm(rng: &mut Rng) -> Self {
         GenCfg {
@@ -72,6 +75,7 @@ impl GenCfg {
             xml_id_pct: *rng.pick(&[0, 10, 30]),
             xml_prefix_decl_pct: 0,
             many_decls_pct: *rng.pick(&[0u32, 0, 0, 3, 10]),
+            small_pools: rng.pct(25),
         }
     }
 }
@@ -130,13 +134,16 @@ fn gen_misc(rng: &mut Rng) -> AContent {
 pub fn gen_elem(rng: &mut Rng, cfg: &GenCfg, scope: &Scope, depth: usize, ids: &mut u32) -> AElem {
     let mut scope = scope.clone();
     let mut decls: Vec<(String, String)> = vec![];
-    if rng.pct(cfg.ns_pct) {
+    let (uris, prefixes, locals): (&[&'static str], &[&'static str], &[&'static str]) =
+        if cfg.small_pools { (&URIS[..2], &PREFIXES[..2], &LOCALS[..2]) } else { (&URIS[..], &PREFIXES[..], &LOCALS[..]) };
+    let ns_pct = if cfg.small_pools { cfg.ns_pct.max(60) } else { cfg.ns_pct };
+    if rng.pct(ns_pct) {
         for _ in 0..rng.range(1, 2) {
-            let prefix = if rng.pct(30) { "".to_string() } else { rng.pick(&PREFIXES).to_string() };
+            let prefix = if rng.pct(30) { "".to_string() } else { rng.pick_str(prefixes).to_string() };
             if decls.iter().any(|(p, _)| *p == prefix) {
                 continue;
             }
-            let uri = rng.pick(&URIS).to_string();
+            let uri = if cfg.small_pools && prefix.is_empty() && rng.pct(30) { String::new() } else { rng.pick_str(uris).to_string() };
             decls.push((prefix.clone(), uri.clone()));
             scope.push((prefix, uri));
         }
@@ -160,10 +167,10 @@ pub fn gen_elem(rng: &mut Rng, cfg: &GenCfg, scope: &Scope, depth: usize, ids: &
     // element name
     let mut uri = "".to_string();
     let mut prefix = "".to_string();
-    if rng.pct(cfg.ns_pct + 10) {
+    if rng.pct(ns_pct + 10) {
         // pick a namespace that has a usable binding
         let mut cands: Vec<(String, String)> = vec![];
-        for u in URIS.iter() {
+        for u in uris.iter() {
             for p in prefixes_for(&scope, u, true) {
                 cands.push((u.to_string(), p));
             }
@@ -193,16 +200,16 @@ pub fn gen_elem(rng: &mut Rng, cfg: &GenCfg, scope: &Scope, depth: usize, ids: &
             }
         }
     }
-    let name = Nm { local: rng.pick(&LOCALS).to_string(), uri };
+    let name = Nm { local: rng.pick_str(locals).to_string(), uri };
     // attributes
     let mut attrs: Vec<(Nm, String, String)> = vec![];
     let nattrs = rng.range(0, cfg.attr_max);
     for _ in 0..nattrs {
         let mut auri = "".to_string();
         let mut apfx = "".to_string();
-        if rng.pct(cfg.ns_pct) {
+        if rng.pct(ns_pct) {
             let mut cands: Vec<(String, String)> = vec![];
-            for u in URIS.iter() {
+            for u in uris.iter() {
                 for p in prefixes_for(&scope, u, false) {
                     cands.push((u.to_string(), p));
                 }
@@ -213,7 +220,7 @@ pub fn gen_elem(rng: &mut Rng, cfg: &GenCfg, scope: &Scope, depth: usize, ids: &
             }
         }
         // (an attribute called xmlns in a namespace - written p:xmlns - is an ordinary attribute)
-        let alocal = if !auri.is_empty() && rng.pct(4) { "xmlns".to_string() } else { rng.pick(&LOCALS).to_string() };
+        let alocal = if !auri.is_empty() && rng.pct(4) { "xmlns".to_string() } else { rng.pick_str(locals).to_string() };
         let an = Nm { local: alocal, uri: auri };
         if attrs.iter().any(|(n, _, _)| *n == an) {
             continue;
@@ -315,6 +322,12 @@ pub fn render_content(c: &AContent, out: &mut String, cdata: &mut dyn FnMut() ->
                 out.push_str("<![CDATA[");
                 out.push_str(t);
                 out.push_str("]]>");
+            } else if t.contains('\n') && cdata() {
+                // the same text in a file with CR LF (or lone CR) line ends: the parser has to
+                // normalise the literal line ends to LF
+                let mut piece = String::new();
+                esc_text(t, &mut piece);
+                out.push_str(&piece.replace('\n', if cdata() { "\r" } else { "\r\n" }));
             } else {
                 esc_text(t, out);
             }
